@@ -21,6 +21,10 @@ def grid(quick):
                 auxs = [9999, 9998, 0, 1, 2, n, n + 1] if not quick else [9999, 9998, 0, 2, n + 1]
                 for aux in sorted(set(auxs)):
                     yield n, alg, place, aux
+    if quick:
+        # a 32-bit checksum whose upper half takes part: the sum of twelve octets no longer fits sixteen bits
+        for place, aux in ((0, 9999), (1, 0)):
+            yield 12, 3, place, aux
 
 
 def crash_scripts(rnd, quick):
